@@ -112,6 +112,10 @@ EXTRA = [
     (["y = x - x"], {"binop", "zero-result"}),
     (["x = 5", "y = x - 5"], {"binop", "zero-result"}),
     (["y = x * 0"], {"binop", "zero-result"}),
+    # a folded zero used as an operand of the next operation
+    (["y = x - x", "x = y + 1"], {"binop", "zero-operand"}),
+    (["y = 2", ("if", ["y = x - x"], None), "x = y + 1"], {"binop", "zero-operand", "if"}),
+    (["y = x - x", "y = y * 5"], {"binop", "zero-operand"}),
     (["x = pick(1)", "y = pick(2)", "x = pick(3)"], {"call", "three-sites"}),
 ]
 
